@@ -1120,6 +1120,132 @@ pub fn run_stall_case(dir: &Path, p: &StallParams) -> Result<StallOut, String> {
     Ok(out)
 }
 
+// ------------------------------------------------------------------ C03: all-or-nothing across a reopen, writers vs workers
+
+#[derive(Clone, Debug, Serialize, Deserialize)]
+pub struct ReopenParams {
+    pub flavor: Flavor,
+    pub writers: usize,
+    pub keyspaces: usize,
+    pub keys_per_writer: usize,
+    pub batches: u64,
+    pub workers: usize,
+    pub memtable: u64,
+    pub delay_seed: u64,
+}
+
+pub fn reopen_params(seed: u64) -> ReopenParams {
+    let mut x = seed | 1;
+    let mut next = move || {
+        x ^= x << 13;
+        x ^= x >> 7;
+        x ^= x << 17;
+        x >> 7
+    };
+    ReopenParams {
+        flavor: [Flavor::Plain, Flavor::SingleWriter, Flavor::Optimistic][(next() % 3) as usize],
+        writers: 2 + (next() % 3) as usize,
+        keyspaces: 2 + (next() % 2) as usize,
+        keys_per_writer: 2 + (next() % 5) as usize,
+        batches: 30 + next() % 60,
+        workers: 1 + (next() % 3) as usize,
+        memtable: [256u64, 700, 2048][(next() % 3) as usize],
+        delay_seed: next(),
+    }
+}
+
+/// Writer threads commit numbered batches / transactions (the same value into every key of the
+/// writer's key set, which spans keyspaces) while real workers rotate, flush and compact tiny
+/// memtables and the journal rotates; then everything is dropped and the directory reopened.
+/// Oracle (C03 for batches that were being committed while background work changed which part of
+/// the journal is still needed): after the reopen every writer's key set shows ONE batch number in
+/// all keys and keyspaces, and it is the last acknowledged one. Returns (non-trivial, flushes).
+pub fn threaded_c03(dir: &Path, p: &ReopenParams) -> Result<(bool, u64), String> {
+    use crate::real::{open_db, open_ks, OpenOpts};
+    let _ = std::fs::remove_dir_all(dir);
+    let cfg = Cfg { flavor: p.flavor, journal_lz4: false, db_manual_persist: false, pos_scale: 64_000, ks: vec![], filter_mask: 0 };
+    let kc = KsCfg { blob: None, memtable: p.memtable, strategy: Strat::LeveledSmall { l0: 2, target: 4096 }, manual_persist: false };
+    let keys: Vec<Vec<(usize, Vec<u8>)>> = (0..p.writers)
+        .map(|w| (0..p.keys_per_writer).map(|j| ((w + j) % p.keyspaces, format!("w{w}k{j}").into_bytes())).collect())
+        .collect();
+    let flushes;
+    {
+        let db = open_db(dir, &cfg, &OpenOpts { workers: p.workers, lz4: false }).map_err(|e| format!("open: {e:?}"))?;
+        let kss: Vec<crate::real::KsH> = (0..p.keyspaces).map(|i| open_ks(&db, NAMES[i], &kc).map_err(|e| format!("{e:?}"))).collect::<Result<_, _>>()?;
+        let err: Mutex<Option<String>> = Mutex::new(None);
+        install_delays(p.delay_seed);
+        std::thread::scope(|s| {
+            for w in 0..p.writers {
+                let (db, kss, keys, err) = (&db, &kss, &keys, &err);
+                s.spawn(move || {
+                    for b in 1..=p.batches {
+                        let val = format!("{w}:{b}:{}", "y".repeat(((b * 29 + w as u64 * 13) % 150) as usize)).into_bytes();
+                        let r: Result<(), String> = match db {
+                            crate::real::DbH::Plain(d) => {
+                                let mut bt = d.batch();
+                                for (ks, k) in &keys[w] {
+                                    bt.insert(&kss[*ks].ks, k.clone(), val.clone());
+                                }
+                                bt.commit().map_err(|e| format!("{e:?}"))
+                            }
+                            crate::real::DbH::Single(d) => {
+                                let mut tx = d.write_tx();
+                                for (ks, k) in &keys[w] {
+                                    tx.insert(kss[*ks].sw.as_ref().unwrap(), k.clone(), val.clone());
+                                }
+                                tx.commit().map_err(|e| format!("{e:?}"))
+                            }
+                            crate::real::DbH::Opt(d) => (|| {
+                                let mut tx = d.write_tx().map_err(|e| format!("{e:?}"))?;
+                                for (ks, k) in &keys[w] {
+                                    tx.insert(&kss[*ks].ks, k.clone(), val.clone());
+                                }
+                                tx.commit().map_err(|e| format!("{e:?}"))?.map_err(|_| "blind-write transaction conflicted".to_string())
+                            })(),
+                        };
+                        if let Err(e) = r {
+                            *err.lock().unwrap() = Some(format!("writer {w} batch {b}: {e}"));
+                            break;
+                        }
+                    }
+                });
+            }
+        });
+        fjall::verif::set_point_handler(None);
+        use fjall::AbstractTree;
+        flushes = kss.iter().map(|h| h.ks.tree.table_count() as u64).sum::<u64>();
+        drop(kss);
+        drop(db);
+        if let Some(e) = err.into_inner().unwrap() {
+            let _ = std::fs::remove_dir_all(dir);
+            return Err(format!("INCONCLUSIVE: {e}"));
+        }
+    }
+    let res = (|| -> Result<(), String> {
+        let db = open_db(dir, &cfg, &OpenOpts { workers: 0, lz4: false }).map_err(|e| format!("reopen after the threaded run failed: {e:?}"))?;
+        let kss: Vec<crate::real::KsH> = (0..p.keyspaces).map(|i| open_ks(&db, NAMES[i], &kc).map_err(|e| format!("{e:?}"))).collect::<Result<_, _>>()?;
+        for w in 0..p.writers {
+            let mut row = vec![];
+            for (ks, k) in &keys[w] {
+                let v = kss[*ks].ks.get(k).map_err(|e| format!("{e:?}"))?;
+                row.push(parse_b(w, v.as_deref()));
+            }
+            if row.iter().any(|b| *b != row[0]) {
+                return Err(format!(
+                    "after reopen the key set of writer {w} (keys over keyspaces {:?}) shows batch numbers {row:?}: a batch was recovered partially",
+                    keys[w].iter().map(|(ks, _)| NAMES[*ks]).collect::<Vec<_>>()
+                ));
+            }
+            if row[0] != p.batches {
+                return Err(format!("after a clean drop and reopen writer {w}'s keys show batch {} but batch {} was the last acknowledged one", row[0], p.batches));
+            }
+        }
+        Ok(())
+    })();
+    let _ = std::fs::remove_dir_all(dir);
+    res.map(|()| (flushes >= 1 && p.keys_per_writer >= 2, flushes))
+}
+
 pub fn shard_c14(tier: &str, seed: u64, shard: u32, cases: u32) -> ShardOut {
     silence_panics();
     let mut o = ShardOut::default();
